@@ -429,3 +429,115 @@ class Asm:
         self.emit(e)
         self.w(pickle.STOP)
         return self.out.getvalue()
+
+
+# ---------------------------------------------------------------- objects -> ENC tokens, op tokens -> bytes
+
+class NotEncodable(Exception):
+    pass
+
+
+def obj_tokens(obj, proto=4):
+    """prefix tokens of an object for the model's ENC request (same reading as symb())"""
+    t = type(obj)
+    if obj is None:
+        return ['N']
+    if t is bool:
+        return ['T' if obj else 'F']
+    if t is int:
+        return ['i%d' % obj]
+    if t is float:
+        return ['f' + enc_str(repr(obj))]
+    if t is str:
+        return ['s' + enc_str(obj)]
+    if t is bytes:
+        return ['b' + enc_bytes(obj)]
+    if t in (list, tuple, set, frozenset):
+        items = list(obj)
+        if t in (set, frozenset):
+            items = sorted(items, key=lambda x: symb(x, proto))
+        out = [{list: 'L', tuple: 'U', set: 'S', frozenset: 'Z'}[t] + str(len(items))]
+        for x in items:
+            out += obj_tokens(x, proto)
+        return out
+    if t is dict:
+        out = ['D%d' % len(obj)]
+        for k, v in obj.items():
+            out += obj_tokens(k, proto) + obj_tokens(v, proto)
+        return out
+    if obj is type(None):
+        return ['NT']
+    if isinstance(obj, type) or isinstance(obj, (types.FunctionType, types.BuiltinFunctionType)):
+        return ['G' + enc_str(obj.__module__) + '/' + enc_str(obj.__qualname__)]
+    rv = copyreg.dispatch_table.get(t)
+    rv = rv(obj) if rv else obj.__reduce_ex__(proto)
+    if isinstance(rv, str) or len(rv) > 3 and (rv[3] is not None or (len(rv) > 4 and rv[4] is not None)):
+        raise NotEncodable(repr(t))
+    func, args = rv[0], rv[1]
+    state = rv[2] if len(rv) > 2 else None
+    fname = getattr(func, '__name__', '')
+    if fname == '__newobj__':
+        r = ['O'] + obj_tokens(args[0], proto) + obj_tokens(tuple(args[1:]), proto)
+    elif fname == '__newobj_ex__':
+        raise NotEncodable(repr(t))
+    else:
+        r = ['C'] + obj_tokens(func, proto) + obj_tokens(tuple(args), proto)
+    if state is not None:
+        r = ['B'] + r + obj_tokens(state, proto)
+    return r
+
+
+def dec_str(t):
+    if t == '_':
+        return ''
+    return ''.join(chr(int(x)) for x in t.split('.'))
+
+
+def assemble_tokens(tokens):
+    """canonical op tokens (the model pickler's vocabulary) -> pickle bytes"""
+    out = io.BytesIO()
+    w = out.write
+    for t in tokens:
+        name, _, arg = t.partition('=')
+        if name == 'proto':
+            w(pickle.PROTO + bytes([int(arg)]))
+        elif name == 'frame':
+            pass
+        elif name == 'stop':
+            w(pickle.STOP)
+        elif name == 'none':
+            w(pickle.NONE)
+        elif name == 'newtrue':
+            w(pickle.NEWTRUE)
+        elif name == 'newfalse':
+            w(pickle.NEWFALSE)
+        elif name == 'int':
+            i = int(arg)
+            if 0 <= i < 256:
+                w(pickle.BININT1 + bytes([i]))
+            elif 0 <= i < 65536:
+                w(pickle.BININT2 + struct.pack('<H', i))
+            elif -2**31 <= i < 2**31:
+                w(pickle.BININT + struct.pack('<i', i))
+            else:
+                enc = pickle.encode_long(i)
+                w(pickle.LONG1 + bytes([len(enc)]) + enc) if len(enc) < 256 else w(pickle.LONG4 + struct.pack('<i', len(enc)) + enc)
+        elif name == 'float':
+            w(pickle.BINFLOAT + struct.pack('>d', float(dec_str(arg))))
+        elif name == 'str':
+            b = dec_str(arg).encode('utf-8', 'surrogatepass')
+            w(pickle.SHORT_BINUNICODE + bytes([len(b)]) + b) if len(b) < 256 else w(pickle.BINUNICODE + struct.pack('<I', len(b)) + b)
+        elif name == 'bytes':
+            b = dec_str(arg).encode('latin-1')
+            w(pickle.SHORT_BINBYTES + bytes([len(b)]) + b) if len(b) < 256 else w(pickle.BINBYTES + struct.pack('<I', len(b)) + b)
+        else:
+            simple = {'emptylist': pickle.EMPTY_LIST, 'emptytuple': pickle.EMPTY_TUPLE, 'emptydict': pickle.EMPTY_DICT,
+                      'emptyset': pickle.EMPTY_SET, 'mark': pickle.MARK, 'append': pickle.APPEND, 'appends': pickle.APPENDS,
+                      'setitem': pickle.SETITEM, 'setitems': pickle.SETITEMS, 'additems': pickle.ADDITEMS, 'tuple': pickle.TUPLE,
+                      'tuple1': pickle.TUPLE1, 'tuple2': pickle.TUPLE2, 'tuple3': pickle.TUPLE3, 'frozenset': pickle.FROZENSET,
+                      'memoize': pickle.MEMOIZE, 'stackglobal': pickle.STACK_GLOBAL, 'binpersid': pickle.BINPERSID,
+                      'reduce': pickle.REDUCE, 'newobj': pickle.NEWOBJ, 'build': pickle.BUILD, 'list': pickle.LIST, 'dict': pickle.DICT}
+            if name not in simple:
+                raise ValueError('cannot assemble ' + t)
+            w(simple[name])
+    return out.getvalue()
